@@ -23,7 +23,11 @@ def specs(draw, tier):
     spec = {"kind": kind, "dim": dim, "n": n, "periodic": draw(st.booleans()), "seed": draw(st.integers(0, 2**31)), "num_processes": draw(st.sampled_from(NPROCS))}
     spec["field"] = draw(st.sampled_from(["droplets", "droplets", "noise"]))
     spec["ndrops"] = draw(st.integers(2, 6))
-    spec["refine_args"] = draw(st.sampled_from([None, None, {"vmin": None, "vmax": None}, {"adjust_values": True}]))
+    spec["refine_args"] = draw(
+        st.sampled_from(
+            [None, None, {"vmin": None, "vmax": None}, {"adjust_values": True}, {"tolerance": 1e-6}, {"least_squares_params": {}}, {"least_squares_params": {"max_nfev": 40}}, {"adjust_values": True, "least_squares_params": {"method": "trf"}}]
+        )
+    )
     spec["modes"] = draw(st.sampled_from([0, 0, 2])) if dim == 2 else 0
     if kind == "storage":
         spec["nframes"] = draw(st.integers(2, 6))
@@ -77,7 +81,7 @@ class C15(Property):
     id = "C15"
     rule = (
         "Schedule control by delay injection. Hypothesis draws a field (2-6 well-formed droplets with a little noise, or coarse-"
-        "grained noise with several irregular candidates; 1-D / 2-D, periodic or not), refine options, a process count from "
+        "grained noise with several irregular candidates; 1-D / 2-D, periodic or not), refine options (automatic / fitted intensity levels, tolerance, user-supplied least_squares_params; a fresh copy per call), a process count from "
         "{2, 3, 5, 'auto'} and a permutation that assigns every task (candidate droplet / stored frame) a delay of 0..7 x "
         "20-80 ms, which forces the workers to finish in that order. The harness swaps droplets.image_analysis.refine_droplet "
         "(resp. locate_droplets, looked up at call time) for a module-level wrapper that sleeps and then calls the original; the "
@@ -134,10 +138,15 @@ class C15(Property):
 
     def _refine(self, spec, ctx, grid, nproc, order, ia):
         field = make_field(spec, grid)
-        kw = dict(refine=True, modes=spec["modes"], refine_args=None if spec["refine_args"] is None else dict(spec["refine_args"]))
+        import copy
+
+        def kw_fresh():  # every call gets its own (deep) copy of the user-supplied options
+            return dict(refine=True, modes=spec["modes"], refine_args=copy.deepcopy(spec["refine_args"]))
+
+        kw = kw_fresh()
         cands = ia.locate_droplets(field, modes=spec["modes"])
-        base = ia.locate_droplets(field, num_processes=1, **kw)
-        again = ia.locate_droplets(field, num_processes=1, **kw)
+        base = ia.locate_droplets(field, num_processes=1, **kw_fresh())
+        again = ia.locate_droplets(field, num_processes=1, **kw_fresh())
         ctx.require(em_records(base) == em_records(again), "refine:serial-not-repeatable", "two serial runs differ")
         ntask = len(cands)
         for k, c in enumerate(cands):
@@ -147,11 +156,11 @@ class C15(Property):
         ctx.nontrivial = ntask >= 2 and reversed_pair
         ctx.cls(f"tasks:{min(ntask, 6)}")
         ia.refine_droplet = H.delayed_refine
-        par = ia.locate_droplets(field, num_processes=nproc, **kw)
+        par = ia.locate_droplets(field, num_processes=nproc, **kw_fresh())
         ctx.require(em_records(par) == em_records(base), f"refine:parallel-differs:procs={nproc}", f"locate_droplets(refine=True, num_processes={nproc}) differs from the serial result ({len(par)} vs {len(base)} droplets; completion ranks {ranks})")
-        lst = ia.refine_droplets(field, list(cands), num_processes=nproc, **(kw["refine_args"] or {}))
+        lst = ia.refine_droplets(field, list(cands), num_processes=nproc, **(kw_fresh()["refine_args"] or {}))
         ia.refine_droplet = H._orig_refine
-        ser = ia.refine_droplets(field, list(cands), num_processes=1, **(kw["refine_args"] or {}))
+        ser = ia.refine_droplets(field, list(cands), num_processes=1, **(kw_fresh()["refine_args"] or {}))
         ctx.require(em_records(lst) == em_records(ser), f"refine_droplets:parallel-differs:procs={nproc}", f"refine_droplets(num_processes={nproc}) differs from the serial list (completion ranks {ranks})")
 
     def _storage(self, spec, ctx, grid, nproc, order, ia):
